@@ -91,7 +91,9 @@ func (f *Divide) Call(s *slip.Scope, args slip.List, depth int) (quot slip.Objec
 					if (*big.Rat)(td).Sign() == 0 {
 						slip.DivisionByZeroPanic(s, depth, slip.Symbol("/"), args, "divide by zero")
 					}
-					quot = (*slip.Ratio)((*big.Rat)(td).Inv((*big.Rat)(td)))
+					// Invert into a new value, the argument must not change.
+					var z big.Rat
+					quot = (*slip.Ratio)(z.Inv((*big.Rat)(td)))
 				case slip.Complex:
 					quot = slip.Complex(complex(1, 0) / complex128(td))
 				}
@@ -125,11 +127,11 @@ func (f *Divide) Call(s *slip.Scope, args slip.List, depth int) (quot slip.Objec
 			if (*big.Float)(ta).Sign() == 0 {
 				slip.DivisionByZeroPanic(s, depth, slip.Symbol("/"), args, "divide by zero")
 			}
+			// The quotient goes into a new value since quot can be the
+			// first argument itself.
 			syncFloatPrec(ta, quot.(*slip.LongFloat))
-			quot = (*slip.LongFloat)(((*big.Float)(quot.(*slip.LongFloat))).Quo(
-				(*big.Float)(quot.(*slip.LongFloat)),
-				(*big.Float)(ta)),
-			)
+			var z big.Float
+			quot = (*slip.LongFloat)(z.Quo((*big.Float)(quot.(*slip.LongFloat)), (*big.Float)(ta)))
 		case *slip.Bignum:
 			if (*big.Int)(ta).Sign() == 0 {
 				slip.DivisionByZeroPanic(s, depth, slip.Symbol("/"), args, "divide by zero")
@@ -147,7 +149,8 @@ func (f *Divide) Call(s *slip.Scope, args slip.List, depth int) (quot slip.Objec
 			if (*big.Rat)(ta).Sign() == 0 {
 				slip.DivisionByZeroPanic(s, depth, slip.Symbol("/"), args, "divide by zero")
 			}
-			quot = (*slip.Ratio)(((*big.Rat)(quot.(*slip.Ratio))).Quo((*big.Rat)(quot.(*slip.Ratio)), (*big.Rat)(ta)))
+			var z big.Rat
+			quot = (*slip.Ratio)(z.Quo((*big.Rat)(quot.(*slip.Ratio)), (*big.Rat)(ta)))
 		case slip.Complex:
 			quot = slip.Complex(complex128(quot.(slip.Complex)) / complex128(ta))
 		}
